@@ -87,7 +87,8 @@ def replay_api(vc, unit):
     clause = vc["name"].rsplit("/", 1)[-1]
     task = {"op": "func", "module": "contracts.inverter_native", "func": "replay_readonly",
             "kwargs": {"family": w["family"], "method": w["method"], "args": w.get("args", []), "script": w["script"],
-                       "variant": w.get("variant", 0), "check": clause}}
+                       "variant": w.get("variant", 0), "check": clause, "prior": w.get("prior"),
+                       "script_skip": w.get("script_skip", 0)}}
     out = units.native_batch([task])[0]
     rec = {"kind": "script", "native_task": task, "native_result": out}
     if not out["ok"]:
@@ -150,7 +151,10 @@ def replay_protocol(vc, unit):
     clause = vc["name"].rsplit("/", 1)[-1]
     uname = vc["name"].split("/")[0]
     kind = "udp" if "Udp" in uname else "tcp"
-    if clause.startswith("C07_C08_fragment_state_cleared"):
+    if clause.startswith("C03_every_transmission_sends_a_freshly_stamped_request"):
+        task = {"op": "func", "module": "contracts.protocol_native", "func": "replay_fresh_stamp",
+                "kwargs": {"kind": kind}}
+    elif clause.startswith("C07_C08_fragment_state_cleared"):
         task = {"op": "func", "module": "contracts.protocol_native", "func": "replay_fragment_cleared",
                 "kwargs": {"kind": kind}}
     elif clause.startswith("C04_C05_C06_timeout_delay"):
@@ -160,7 +164,7 @@ def replay_protocol(vc, unit):
         task = {"op": "func", "module": "contracts.protocol_native", "func": "replay_binding",
                 "kwargs": {"cls": w.get("cls", uname.split(":")[1]), "comm_addr": w.get("comm_addr", 0xf7),
                            "offset": w.get("offset", 0), "value": w.get("value", 1), "values": w.get("values", b""),
-                           "data": w.get("data", b"")}}
+                           "data": w.get("data", b""), "check": clause}}
     elif "which" in w:
         task = {"op": "func", "module": "contracts.protocol_native", "func": "replay_callback",
                 "kwargs": {"kind": kind, "which": w["which"], "retry": w.get("retry", 0), "retries": w.get("retries", 3),
